@@ -16,7 +16,7 @@ import corpus
 import genjs
 from parts import parsetie, texts as T
 
-SPEC = dict(gen=['tables', 'lexdata', 'actions'], props=['CalmVerif.Props.C12', 'CalmVerif.Props.C12parse', 'CalmVerif.Props.C12act', 'CalmVerif.Props.C12term', 'CalmVerif.Props.C12all'], drivers=['drv_lex', 'drv_parse'], audit='Audit/C12.lean')
+SPEC = dict(gen=['tables', 'lexdata', 'actions'], props=['CalmVerif.Props.C12', 'CalmVerif.Props.C12parse', 'CalmVerif.Props.C12act', 'CalmVerif.Props.C12term', 'CalmVerif.Props.C12all', 'CalmVerif.Props.C12pos'], drivers=['drv_lex', 'drv_parse'], audit='Audit/C12.lean')
 
 LEX_ALPHA = list("ab1 \n\t/*\"'\\{}();=+-.[],<>!&|?:") + ['\r', ' ', '\xa0', 'é', '0x', 'e', '﻿', '　', '//', '/*', '*/',
                                                              'in ', 'if', 'var ', 'return', '\\u', '\\x', '\\\n', '++', '/=', 'get ', '$', '_', '😀']
@@ -142,9 +142,23 @@ def check_position(text, msg):
     return None
 
 
+# parsed FIRST, in this order, in the worker process (the worker parses all its items one after the other through the
+# module-level parse(), so what an earlier text leaves behind meets the later ones): closers without opener at depth 0, broken
+# literals and comments, each followed by plain valid programs
+SEQ_FIRST = ['f(a));', 'var a;', ')', 'x = 1;', 'b = [1]];', 'c;', '}', 'd = {};', 'if (a)) b;', 'if (e) f;', 'g(', 'h;', "'open", 'i;',
+             '/* open', 'j;', 'k = /[/;', 'l;', 'm.', 'this.n = 1;', 'f(x)', '/re/.test(o);', 'p = q\n++', 'r;']
+
+
 def inputs(ctx):
     rng = ctx.sub_rng('inputs')
-    out = [e['text'] if isinstance(e, dict) else e for e in corpus.extra('C12')]
+    out = list(SEQ_FIRST)
+    out += [e['text'] if isinstance(e, dict) else e for e in corpus.extra('C12')]
+    # a syntax error AFTER a token that spans lines (regex literals with raw line terminators are accepted by the lexer, block
+    # comments, strings with continuations): the position in the message must be counted through that token
+    for lt in ('\n', '\r', '\r\n', '\u2028', '\u2029'):
+        out += ['var re = /a%sb/;%sfoo bar;' % (lt, lt), 'x = /[%s]/g; y z' % lt, '{}%s/a%sb/ c d' % (lt, lt), '/%s/)' % lt,
+                'a++%s/%s%s/ 1 2' % (lt, lt, lt), '/* a%sb */ c d' % lt, "s = 'a\\%sb' t" % lt, 'x = /a%sb/; "open' % lt,
+                'x = /a%sb/; @' % lt, 'x = /a%sb/; y = /[' % lt, "x = /a%sb/; '\\xzz'" % lt]
     base = rng.sample(corpus.g1_valid(), ctx.n(40, 392))
     for t in base:
         out.append(t)
@@ -218,7 +232,8 @@ def run(ctx):
             ctx.violation('parse(%r...) %s' % (text[:30], {'timeout': 'did not terminate within the time limit',
                                                           'recursion': 'raised RecursionError',
                                                           'other': 'raised %s' % (r[1] if len(r) > 1 else '')}[r[0]]),
-                          dict(text=text, with_comments=wc, outcome=r))
+                          dict(text=text, with_comments=wc, outcome=r,
+                               history=[[t, w] for t, w in items[:idx]] if idx < 2 * len(SEQ_FIRST) else None))
             return
     ctx.sample(dict(text=texts[len(texts) // 2][:80], outcome=run_one(texts[len(texts) // 2])[0]))
     # the tie runs the implementation in-process, so it comes after the isolated judge has shown that every input terminates
@@ -236,6 +251,8 @@ def position_known(ctx, text, complaint):
 
 def replay(ctx, path):
     d = json.load(open(path))['replay']
+    for t, w in (d.get('history') or []):       # texts parsed earlier in the same process (module-level parse())
+        run_one(t, w)
     r = run_one(d['text'], d.get('with_comments', False))
     print('outcome:', r)
     if r[0] == 'syntax':
